@@ -674,9 +674,12 @@ package engine
 //@   trusted
 //@   modifies nothing
 
+//@ spec abstract resolve(e *Env, t Term) Term
+
 //@ func (*Env).Resolve
 //@   trusted
 //@   modifies nothing
+//@   ensures result == resolve(e, t)
 
 //@ func Catch
 //@   property C04
@@ -1273,3 +1276,86 @@ package engine
 //@ global memFree test-hook
 //@ global openFile test-hook
 //@ global osExit test-hook
+
+//@ ---------------------------------------------------------------- standard order of terms (C08)
+
+//@ extern strings.Compare
+//@   pure
+//@   deterministic
+
+//@ func Term.Compare
+//@   trusted
+//@   pure
+//@   deterministic
+//@ func Compound.Arity
+//@   trusted
+//@   pure
+//@   deterministic
+//@ func Compound.Functor
+//@   trusted
+//@   pure
+//@   deterministic
+//@ func Compound.Arg
+//@   trusted
+//@   pure
+//@   deterministic
+
+//@ spec fun rank(t Term) int = ite(t is Variable, 0, ite(t is Float, 1, ite(t is Integer, 2, ite(t is Atom, 3, ite(t is Compound, 5, 4)))))
+
+//@ func Integer.Compare
+//@   property C08
+//@   modifies nothing
+//@   let r = resolve(env, t)
+//@   at-call (*Env).Resolve requires[compares-the-resolved-term] a0 == env && a1 == t
+//@   defines result == Term.Compare(i, t, env)
+//@   ensures[three-way] result == -1 || result == 0 || result == 1
+//@   ensures[by-type-rank] !(r is Integer) ==> result == sgn(2 - rank(r))
+//@   ensures[numeric-order] r is Integer ==> result == sgn(i - (r as Integer))
+
+//@ func Float.Compare
+//@   property C08
+//@   modifies nothing
+//@   let r = resolve(env, t)
+//@   at-call (*Env).Resolve requires[compares-the-resolved-term] a0 == env && a1 == t
+//@   defines result == Term.Compare(f, t, env)
+//@   ensures[three-way] result == -1 || result == 0 || result == 1
+//@   ensures[by-type-rank] !(r is Float) ==> result == sgn(1 - rank(r))
+//@   ensures[numeric-order] r is Float ==> (f > (r as Float) ==> result == 1) && (f < (r as Float) ==> result == -1) && (f == (r as Float) ==> result == 0)
+
+//@ func Atom.Compare
+//@   property C08
+//@   modifies nothing
+//@   let r = resolve(env, t)
+//@   at-call (*Env).Resolve requires[compares-the-resolved-term] a0 == env && a1 == t
+//@   defines result == Term.Compare(a, t, env)
+//@   ensures[three-way] result == -1 || result == 0 || result == 1
+//@   ensures[by-type-rank] !(r is Atom) ==> result == sgn(3 - rank(r))
+//@   ensures[by-text] r is Atom ==> result == sgn(strings.Compare(Atom.String(a), Atom.String(r as Atom)))
+
+//@ func Variable.Compare
+//@   property C08
+//@   modifies nothing
+//@   let w = resolve(env, v)
+//@   let rt = resolve(env, t)
+//@   ensures[bound-variable-compares-as-its-value] !(w is Variable) ==> result == Term.Compare(w, t, env)
+//@   ensures[variables-before-everything-else] w is Variable && !(rt is Variable) ==> result == -1
+//@   ensures[two-variables] w is Variable && rt is Variable ==> result == sgn((w as Variable) - (rt as Variable))
+
+//@ func CompareCompound
+//@   property C08
+//@   requires c != nil
+//@   modifies nothing
+//@   let r = resolve(env, t)
+//@   at-call (*Env).Resolve requires[compares-the-resolved-term] a0 == env && a1 == t
+//@   loop 1 invariant 0 <= i && forall j int :: 0 <= j && j < i ==> Term.Compare(Compound.Arg(c, j), Compound.Arg(r as Compound, j), env) == 0
+//@   ensures[compound-after-everything-else] !(r is Compound) ==> result == 1
+//@   ensures[arity-first] r is Compound && Compound.Arity(c) != Compound.Arity(r as Compound) ==> result == sgn(Compound.Arity(c) - Compound.Arity(r as Compound))
+//@   ensures[then-name] r is Compound && Compound.Arity(c) == Compound.Arity(r as Compound) && Term.Compare(Compound.Functor(c), Compound.Functor(r as Compound), env) != 0 ==>
+//@       result == Term.Compare(Compound.Functor(c), Compound.Functor(r as Compound), env)
+//@   ensures[equal-means-all-arguments-equal] r is Compound && result == 0 ==> Compound.Arity(c) == Compound.Arity(r as Compound) &&
+//@       Term.Compare(Compound.Functor(c), Compound.Functor(r as Compound), env) == 0 &&
+//@       forall j int :: 0 <= j && j < Compound.Arity(c) ==> Term.Compare(Compound.Arg(c, j), Compound.Arg(r as Compound, j), env) == 0
+//@   ensures[first-differing-argument-decides] r is Compound && result != 0 && Compound.Arity(c) == Compound.Arity(r as Compound) &&
+//@       Term.Compare(Compound.Functor(c), Compound.Functor(r as Compound), env) == 0 ==>
+//@       exists m int :: 0 <= m && m < Compound.Arity(c) && result == Term.Compare(Compound.Arg(c, m), Compound.Arg(r as Compound, m), env) &&
+//@           forall j int :: 0 <= j && j < m ==> Term.Compare(Compound.Arg(c, j), Compound.Arg(r as Compound, j), env) == 0
